@@ -219,3 +219,44 @@ func init() {
 		}
 	}
 }
+
+// ---- pair/*: the same pairs of API calls from the same base states, explored in normal mode and judged by the whole
+// functional oracle suite (every property with a generic clause), not by the race detector. The epilogue opens every
+// gate and ends with a Restart that runs alone, after which every accepted job not cancelled must have run once and
+// every handle must have completed.
+func init() {
+	ops := raceOps()
+	props := []string{"C01", "C02", "C03", "C05", "C06", "C08", "C09", "C10", "C16", "C17", "C18"}
+	for _, base := range raceBases() {
+		base := base
+		for i := range ops {
+			for k := i; k < len(ops); k++ {
+				a, b := ops[i], ops[k]
+				only := "thorough"
+				if base.name == "inflight" || base.name == "batch" {
+					only = ""
+				}
+				Register(&Scenario{
+					Name:  name("pair/%s/%s+%s", base.name, a.name, b.name),
+					Props: props, Only: only,
+					Mode:  "NB", Quick: 1, Thorough: 2, Shards: 1,
+					Body: func(h *H) {
+						e := base.setup(h)
+						go func() { a.f(e) }()
+						go func() { b.f(e) }()
+						h.Quiesce(false)
+						for _, jr := range h.Jobs {
+							h.Open(jr.Tag)
+						}
+						for t := 100; t < 340; t++ {
+							h.Open(t)
+						}
+						h.Quiesce(false)
+						e.w.Restart()
+						h.End()
+					},
+				})
+			}
+		}
+	}
+}
